@@ -27,6 +27,21 @@ CLAIMED = {
             "TLA+ model checking (TLC) + impl->spec trace validation against the property predicate"),
 }
 
+CLAIMED.update({
+    "C02": ("3.C02", "MC_Bdd: |AllWF(NV)| = 2^2^NV, Sat is injective on AllWF and Canon(Sat(a)) = a (NV=3, thorough NV=4); MC_Env: I_WF and I_Canon "
+            "hold in every reachable state of the environment machine (every construction route, NV=2); TLC-simulated behaviours of Env.tla "
+            "(NV=3) are replayed in fresh and long-lived real environments with one variable order and results must be ==/hash-equal iff the "
+            "specification's structures are equal; random 300-operation histories are validated by Trace_Env (WF of every node, equal "
+            "function <=> same node over all results of the history).",
+            "TLA+ model checking (TLC) of Bdd.tla/Env.tla + spec->impl behaviour replay + impl->spec trace validation"),
+    "C13": ("3.C13", "MC_Env: exhaustive exploration of the hash-consing environment machine (NV=2, bounded live handles, all operations incl. "
+            "model/retain/clean/fp/drop) with invariants I_Leaves, I_Unique, I_WF, I_Canon, I_Closed and action properties append-only and "
+            "history-freedom; TLC-simulated behaviours replayed step by step in fresh and long-lived real environments; real random histories "
+            "(NV=6, 300 operations incl. formula evaluations sharing the environment) logged with pointer identities, table deltas and the "
+            "fresh-environment result, validated event by event by Trace_Env.",
+            "TLA+ model checking (TLC) of Env.tla + spec->impl behaviour replay + impl->spec trace validation with pointer identities"),
+})
+
 PENDING_REASON = "machinery for this property is not built yet in this revision (planned in DESIGN.md section 3); no claim is made"
 
 ALL = ["C%02d" % i for i in range(1, 21)]
